@@ -305,7 +305,7 @@ struct C19 : public Driver {
         auto allowed = featuresExcept({ "bigfmt", "ns-axis", "doctype-node" });
         SSCfg sc; sc.on = pickFeatures(g, allowed, 2, 7); sc.dupExtPrefix = g.chance(1, 4); if (g.chance(1, 4)) sc.on.insert("manyrtf"); if (g.chance(1, 4)) sc.on.insert("deeprec"); sc.useImport = g.chance(1, 4); sc.useInclude = g.chance(1, 4); sc.docFn = g.chance(1, 4); sc.stripSpace = g.chance(1, 4);
         sc.encoding = g.chance(1, 4) ? "ISO-8859-1" : (g.chance(1, 5) ? "UTF-16" : "UTF-8"); sc.order = g.chance(1, 3) ? "rk" : "doc";
-        sc.keyVariant = (int)g.below(3); if (g.chance(1, 5)) sc.on.insert("rtf-key"); if (g.chance(1, 5)) sc.on.insert("num-groupsep"); if (g.chance(1, 6)) sc.on.insert("sort-manylang"); if (g.chance(1, 6)) sc.on.insert("manydf"); if (g.chance(1, 5)) sc.on.insert("deep-rtf"); if (g.chance(1, 5)) sc.on.insert("many-nodesets");
+        sc.keyVariant = (int)g.below(3); if (g.chance(1, 5)) sc.on.insert("rtf-key"); if (g.chance(1, 5)) sc.on.insert("num-groupsep"); if (g.chance(1, 6)) sc.on.insert("sort-manylang"); if (g.chance(1, 6)) sc.on.insert("manydf"); if (g.chance(1, 5)) sc.on.insert("deep-rtf"); if (g.chance(1, 5)) sc.on.insert("many-nodesets"); { Rng ga = g.fork("attr-feat"); if (ga.chance(1, 4)) sc.on.insert("attr-expanded"); if (ga.chance(1, 5)) sc.on.insert("copy-ns-attr"); if (ga.chance(1, 5)) sc.on.insert("attr-replace"); }
         { unsigned m = (unsigned)g.below(12); if (m == 0) { sc.method = ""; sc.rootName = "html"; } else if (m == 1) sc.method = "html"; else if (m == 2) sc.method = "text"; else if (m == 3) { sc.method = ""; } }   // output method: xml mostly; html, text, and the switch to html after the first element
         GenSS s0 = genStylesheet(g, sc, d0);
         SSCfg sb = sc; static const std::vector<std::string> aborts = { "message", "key", "extfn", "encoding" };
